@@ -15,6 +15,8 @@ R09.1 (MIR call graph) restricts which functions of html5ever::tokenizer may cal
 pop_except_from, eat, pop_front} or pop characters off the front chunk; R09.2 restricts writers of current_line;
 R08.1's set-completeness gives 'no run contains a line break'; R09.3 (flattened tables) shows no peek+discard
 path sees CR/LF; R09.4 checks that process_token passes current_line at both call sites.
+R09.5 line forwarded before any sink-reaching call in TreeBuilder::process_token; R09.6 SIMD scan newline accounting (SSE2 +
+NEON) and reviewed normal forms of the SIMD functions; R09.3 also: pushed-back characters were read uncounted.
 """
 ASSUMPTIONS = ["the sink receives the line number it is passed (tree builder forwards it unchanged: checked structurally in R09.4)"]
 
